@@ -3,3 +3,5 @@ package rules
 import "verif/checker/internal/core"
 
 func c01R7(l *core.Ledger) {}
+
+func c11K8(l *core.Ledger) {}
